@@ -765,6 +765,9 @@ def compare_unit(unit, oracle, bind, lang="python", imports=None, col=None):
                 edesc = "%s of %s %s (line %d)" % (how, owner.kind, owner.name, owner.line)
             if forms and not (forms & oracle.HOISTABLE):
                 ekind = UNHOISTED_KIND.get(frozenset(forms), "bound-only-by-unhoisted-forms(mixed)")
+            if owner.kind == "func" and owner.parent is not None and owner.parent.kind == "class" \
+                    and ps is not owner and _first_param(owner) == name:
+                ekind = "first-parameter-of-method-captured-by-nested-scope"
             if name in block_imports:
                 ekind = "name-also-imported-inside-a-module-level-block"
             if not ok:
@@ -779,7 +782,8 @@ def compare_unit(unit, oracle, bind, lang="python", imports=None, col=None):
                             try:
                                 sym = dps.table.lookup(name)
                                 if sym.is_declared_global():
-                                    ck = "local-row-under-global-decl"
+                                    ck = "local-row-under-own-global-decl" if dps is ps else \
+                                        "local-row-under-enclosing-global-decl"
                                 elif sym.is_nonlocal():
                                     ck = "local-row-under-nonlocal-decl"
                             except KeyError:
@@ -787,6 +791,12 @@ def compare_unit(unit, oracle, bind, lang="python", imports=None, col=None):
                 out.append(((lang, ukind, ck, ekind),
                             "%s:%d `%s` (%s) bound to %s, expected %s" % (unit, line, name, ukind, _short(d), edesc)))
     return out, stats
+
+
+def _first_param(ps):
+    a = ps.node.args
+    args = a.posonlyargs + a.args
+    return args[0].arg if args else None
 
 
 def _imp_chosen(d, unit):
